@@ -270,7 +270,7 @@ func safely(f func() error) (err error, panicked string) {
 func TestStrictHistories(t *testing.T) {
 	run := obs.Start(t, "C10")
 	defer run.Done()
-	run.Rule("model-based histories over a random path universe (3..20 paths over a small alphabet with '/', unicode, >30-byte names, prefixes/extensions): adds and overwrites (with metadata) on a fresh manifest observed after every op, then rounds of [store, reload, observe, add unmapped paths on a fresh reloaded instance]; every universe path looked up and every byte-prefix queried at each observation point; distinct = (ops, stores, universe size, encrypted, overwrites)",
+	run.Rule("model-based histories over a random path universe (3..20 paths over a small alphabet with '/', unicode, >30-byte names, prefixes/extensions): adds and overwrites (with metadata) on a fresh manifest observed after every op, then rounds of [1 in 4: a store refused part of the way by the size callback, observe; store, reload, observe, add unmapped paths on a fresh reloaded instance]; every universe path looked up and every byte-prefix queried at each observation point; distinct = (ops, stores, universe size, encrypted, overwrites)",
 		"'/' root entry compared as empty-or-zero reference", "manifest trie is the external module gauss-project/manifest v0.4.2")
 	n := run.N(150, 1500)
 	for i := 0; i < n; i++ {
@@ -362,6 +362,24 @@ func TestStrictHistories(t *testing.T) {
 		rounds := 1 + rng.Intn(3)
 		w := s.m
 		for r := 0; r < rounds && !bad; r++ {
+			if rng.Intn(4) == 0 {
+				// a store that fails part of the way (the size callback refuses after n calls, as an
+				// upload quota would), followed by the ordinary retry below
+				left := rng.Intn(3)
+				_, ferr := w.Store(s.ctx, func(int64) error {
+					if left == 0 {
+						return errors.New("c10: size callback refuses")
+					}
+					left--
+					return nil
+				})
+				hist = append(hist, op{Kind: fmt.Sprintf("store-refused-by-size-callback(err=%v)", ferr != nil)})
+				run.Stat("failed_stores_before_a_retry", 1)
+				check(w, "failed store")
+				if bad {
+					break
+				}
+			}
 			ref, err := w.Store(s.ctx)
 			if err != nil {
 				c.Viol("store-error", err.Error(), map[string]interface{}{"encrypted": enc, "history": hist})
